@@ -115,7 +115,12 @@ BicgCases(z) == {[sub |-> "bicg", n |-> Len(A), A |-> A, X |-> XMat(p, Len(A), 1
                  A \in SpdMats(z) \cup NonSymMats(z), p \in {1, 3}}
 \* (a zero right-hand side is left out: the first BiCGSTAB step is then 0/0 and the solver panics "NaN detected" by design)
 NonZero(B) == \E i \in 1..Len(B) : \E c \in 1..Len(B[i]) : B[i][c] # 0
-LinsolveCases(z) == LsCases(z) \cup CholCases(z) \cup {c \in BicgCases(z) : NonZero(c.B)}
+\* scaled identities: the first half step is already exact (the solver's exact-convergence exit), and the
+\* solver is then asked for further iterations (iteration limit only, no tolerance)
+BicgItCases(z) == {[sub |-> "bicgit", n |-> n, A |-> GraphMat("none", n, 1, 1, s), X |-> XMat(p, n, 1),
+                    B |-> MulRows(GraphMat("none", n, 1, 1, s), XMat(p, n, 1)), d |-> 1] :
+                   n \in 1..z, s \in {1, 2, 4}, p \in {1, 2, 3}}
+LinsolveCases(z) == LsCases(z) \cup CholCases(z) \cup {c \in BicgCases(z) \cup BicgItCases(z) : NonZero(c.B)}
 
 ---------------------------------------------------------------------------
 \* objectives: value of the cell vector z; see KernelJudge.G
@@ -164,8 +169,11 @@ CtrlPt(p, i, n) == CASE p = 1 -> <<2 * i, 0>>
                      [] p = 9 -> <<2, 3>>
                      [] p = 10 -> <<-4 * i, 3 * i>>
                      [] p = 11 -> <<((i * i * 3 + Seed) % 11) - 5, ((i * 4 + Seed * 5) % 9) - 4>>
+                     \* closed curves: the last control point is the first one, bit for bit
+                     [] p = 12 -> IF i = 0 \/ i = n THEN <<0, 0>> ELSE <<3 * i, ((i * i) % 5) + 1>>
+                     [] p = 13 -> IF i = 0 \/ i = n THEN <<2, -1>> ELSE <<((i * 5 + Seed) % 7) - 3, 4 - i>>
 BezierCases(z) == {[n |-> n, pat |-> p, D |-> IF n <= 7 THEN 4 ELSE 2, P |-> [i \in 1..(n + 1) |-> CtrlPt(p, i - 1, n)]] :
-                   n \in 1..z, p \in 1..11}
+                   n \in 1..z, p \in 1..13}
 
 ---------------------------------------------------------------------------
 MaxStep == IF Level = 1 THEN 3 ELSE 4
